@@ -995,6 +995,9 @@ class GroupBy:
         result_len = len(self.result_index)
 
         if transform:
+            if func_name in ("size", "count"):
+                # the counts are collected separately from the (unused) reduction target
+                result_columns = [np.append(count[:result_len], 0) for count in counts]
             if func_is_mean:
                 # per-group mean = sum / count, then broadcast like any other result
                 with np.errstate(invalid="ignore", divide="ignore"):
